@@ -8,7 +8,8 @@ Line-protocol front end of the C05 model.
 
 ```
 new <gridDep 0|1> <wlDep 0|1> <maxN>      start a freshly constructed element
-req <i|-> <o|-> <w|-> <gi|-> <go|->       get_instance_data(i, o, w); gi = id of
+req <i|-> <o|-> <w|-> <gi|-> <go|->       get_instance_data(i, o, w); grids are written <coord id>.<weights id> and enter the
+                                          cache through `gridKey` (the keys printed are the resulting ids); gi = id of
                                           get_input_grid(o, w) and go = id of get_output_grid(i', w)
                                           as observed on a *fresh* element ('-' = None / not needed)
 reqc <i|-> <o|-> <w|-> <gi|-> <go|-> <t>  a propagation through an element whose instances own a memo cell (FourierFilter of a
@@ -58,6 +59,16 @@ structure St where
 def parseOptNat? (s : String) : Option (Option Nat) :=
   if s == "-" then some none else (parseNat? s).map some
 
+/-- A grid argument: `-` (None) or `<coord>.<weights>`; the cache sees `gridKey` of it. -/
+def parseOptGrid? (s : String) : Option (Option Nat) :=
+  if s == "-" then some none else
+    match s.splitOn "." with
+    | [c, w] =>
+      match parseNat? c, parseNat? w with
+      | some c, some w => some (some (gridKey ⟨c, w⟩))
+      | _, _ => none
+    | _ => none
+
 def parseBool? (s : String) : Option Bool :=
   if s == "1" then some true else if s == "0" then some false else none
 
@@ -90,7 +101,7 @@ def showState (s : Cache.St) : String := s!"ver={s.ver} num={s.num} cache={showC
 
 def step (st : St) : List String → St × String
   | ["reqc", i, o, w, gi, go, t] =>
-    match parseOptNat? i, parseOptNat? o, parseOptNat? w, parseOptNat? gi, parseOptNat? go, parseNat? t with
+    match parseOptGrid? i, parseOptGrid? o, parseOptNat? w, parseOptGrid? gi, parseOptGrid? go, parseNat? t with
     | some i, some o, some w, some gi, some go, some t =>
       let e : Elem := { gridDep := st.gridDep, wlDep := st.wlDep, maxN := st.maxN,
                         getIn := fun _ _ _ => gi, getOut := fun _ _ _ => go }
@@ -112,7 +123,7 @@ def step (st : St) : List String → St × String
       ({ st with gridDep := g, wlDep := w, maxN := n, st := Cache.St.init 0, heap := cellContent.heap0 }, "ok")
     | _, _, _ => (st, "bad-op")
   | ["req", i, o, w, gi, go] =>
-    match parseOptNat? i, parseOptNat? o, parseOptNat? w, parseOptNat? gi, parseOptNat? go with
+    match parseOptGrid? i, parseOptGrid? o, parseOptNat? w, parseOptGrid? gi, parseOptGrid? go with
     | some i, some o, some w, some gi, some go =>
       let e : Elem := { gridDep := st.gridDep, wlDep := st.wlDep, maxN := st.maxN,
                         getIn := fun _ _ _ => gi, getOut := fun _ _ _ => go }
